@@ -694,3 +694,172 @@ Proof.
   exact (C01_call_no_panic_all oracle_trivial oracle_trivial_valid oracle_trivial_display_safe true 3 [] this f args st
            eq_refl Ht Hf Ha).
 Qed.
+
+(* ==================================================================================================
+   PRATT FUEL (extension PF1): the fuel gap between the TEXT layer and the evaluator theorems is closed.
+   (a) proofs/PrattFuelAll.v: for EVERY item list (nested groups included; also the ones on which the glue
+       answers Err or panics), every operator table and every closure map, the transcription of pest's Pratt
+       loop + pairs_to_expr_inner (Pratt.parse_items) run with the fuel Pratt.pratt gives it —
+       fuel_of its = 4 * items_size its + 4, items_size = number of pairs, nested ones included — never returns
+       the model's out-of-fuel outcome (3 * items_size its + 2 suffices).  Induction on the fuel over the five
+       mutually recursive functions, no bound.
+   (b) proofs/PrattFuelAllText.v: hence no statement of any text is TGlueFuel, and with C10's PEG totality:
+       for EVERY byte string, every inputs object and every oracle, run_text_res (eval_all o) is TRun sr with no
+       `Unmodelled` result in sr, or TReject, or TParsePanic — C01_text_run_never_unmodelled without its
+       hypothesis.  The all-or-nothing parse view never answers TPFuel.
+   (c) of the glue model's explicit Panic arms, the statement loop's `unreachable!()` (a `statement` pair whose
+       first inner pair is none of expression / output_declaration / comment) and the "statement without inner
+       pair" case are NOT reachable on trees the PEG interpreter produces on the regenerated grammar
+       (C01_text_statement_arms_unreachable).  The arms inside Pratt.v (operator in primary position, empty
+       token stream, …) and the PEG engine's stack `expect`s (TParsePanic) are not excluded by a theorem; the
+       TEXT-EVAL / PARSE-text streams count them (0).  notes/ext-pf1.md lists them. *)
+Require Blots.proofs.PrattFuelAll Blots.proofs.PrattFuelAllText.
+Section PrattFuelTotal.
+Import Blots.PrattTypes Blots.Pratt Blots.TextRun Blots.proofs.PrattFuelAll Blots.proofs.PrattFuelAllText.
+
+Theorem C01_pratt_fuel_sufficient : forall tbl imap pmap its,
+  parse_items tbl imap pmap (fuel_of its) its <> Outcome.Unmodelled.
+Proof. exact pratt_fuel_sufficient. Qed.
+Check C01_pratt_fuel_sufficient : forall tbl imap pmap its,
+  parse_items tbl imap pmap (4 * items_size its + 4) its <> Outcome.Unmodelled.
+Print Assumptions C01_pratt_fuel_sufficient.
+
+(* fuel_of IS the fuel the text layer hands to the Pratt model *)
+Theorem C01_pratt_impl_never_unmodelled : forall its, pratt_impl its <> Outcome.Unmodelled.
+Proof. exact pratt_impl_never_unmodelled. Qed.
+Check C01_pratt_impl_never_unmodelled : forall its, pratt_impl its <> Outcome.Unmodelled.
+Print Assumptions C01_pratt_impl_never_unmodelled.
+
+Theorem C01_text_no_glue_fuel : forall text l,
+  parse_text_stmts text = TIOk l -> Forall (fun t => t <> TGlueFuel) l.
+Proof. exact parse_text_stmts_no_glue_fuel. Qed.
+Check C01_text_no_glue_fuel : forall text l,
+  parse_text_stmts text = TIOk l -> Forall (fun t => t <> TGlueFuel) l.
+Print Assumptions C01_text_no_glue_fuel.
+
+Theorem C01_text_parse_never_fuel : forall text, parse_text_ast text <> TPFuel.
+Proof. exact parse_text_ast_never_fuel. Qed.
+Check C01_text_parse_never_fuel : forall text, parse_text_ast text <> TPFuel.
+Print Assumptions C01_text_parse_never_fuel.
+
+Theorem C01_text_run_never_unmodelled_total : forall o inputs text,
+  (exists sr, run_text_res (eval_all o) inputs text = TRun sr
+              /\ Forall (fun rs => fst rs <> Program.RFail Outcome.Unmodelled) (snd sr))
+  \/ run_text_res (eval_all o) inputs text = TReject
+  \/ run_text_res (eval_all o) inputs text = TParsePanic.
+Proof. exact run_text_never_unmodelled_total. Qed.
+Check C01_text_run_never_unmodelled_total : forall o inputs text,
+  (exists sr, run_text_res (eval_all o) inputs text = TRun sr
+              /\ Forall (fun rs => fst rs <> Program.RFail Outcome.Unmodelled) (snd sr))
+  \/ run_text_res (eval_all o) inputs text = TReject
+  \/ run_text_res (eval_all o) inputs text = TParsePanic.
+Print Assumptions C01_text_run_never_unmodelled_total.
+
+(* the canonical line the TEXT-EVAL stream compares is never the model's "FUEL" line *)
+Theorem C01_text_run_outcome_cases : forall o inputs text,
+  (exists sr, run_text o inputs text = show_run_out sr
+              /\ Forall (fun rs => fst rs <> Program.RFail Outcome.Unmodelled) (snd sr))
+  \/ run_text o inputs text = "REJECT;ENV:;OUT:"%string
+  \/ run_text o inputs text = "PANIC"%string.
+Proof. exact run_text_outcome_cases. Qed.
+Check C01_text_run_outcome_cases : forall o inputs text,
+  (exists sr, run_text o inputs text = show_run_out sr
+              /\ Forall (fun rs => fst rs <> Program.RFail Outcome.Unmodelled) (snd sr))
+  \/ run_text o inputs text = "REJECT;ENV:;OUT:"%string
+  \/ run_text o inputs text = "PANIC"%string.
+Print Assumptions C01_text_run_outcome_cases.
+
+(* two of the three outcomes are reached (the third, TParsePanic, is the PEG engine's `expect` on an empty
+   stack; no text reaching it is known, none is excluded by a theorem) *)
+Example C01_text_run_reaches_reject : run_text oracle_trivial [] "1 +" = "REJECT;ENV:;OUT:"%string.
+Proof. vm_compute. reflexivity. Qed.
+Example C01_text_run_reaches_run : run_text oracle_trivial [] "1 + 2" = "OK:N4008000000000000;ENV:;OUT:"%string.
+Proof. vm_compute. reflexivity. Qed.
+End PrattFuelTotal.
+
+(* (c) the statement loop's `unreachable!()` arm and the "no inner pair" arm are not reachable on parsed texts:
+       every `statement` pair of every accepted text is one of the three modelled forms, so a TGluePanic
+       statement can only be a Panic of Pratt.pratt_impl on that statement's token stream *)
+Require Blots.proofs.PrattFuelAllShape.
+Theorem C01_text_statement_arms_unreachable : forall fuel text s' cf t,
+  Blots.Peg.parse Blots.gen.Grammar.blots_grammar fuel Blots.gen.Grammar.PG_input text = Blots.Peg.Ok s' ->
+  In t (rev (Blots.Peg.out s')) -> Blots.PegToItems.is_rule Blots.gen.Grammar.PG_statement t = true ->
+  exists first, In first (Blots.PegToItems.tkids t) /\
+    (Blots.TextRun.text_stmt_of text cf t
+       = Some (Blots.TextRun.glue_stmt SExpr
+                 (Blots.Pratt.pratt_impl (map (Blots.PegToItems.conv text cf) (Blots.PegToItems.tkids first))))
+     \/ Blots.TextRun.text_stmt_of text cf t
+       = Some (Blots.TextRun.glue_stmt SOut
+                 (Blots.Pratt.pratt_impl (map (Blots.PegToItems.conv text cf) (Blots.PegToItems.tkids first))))
+     \/ Blots.TextRun.text_stmt_of text cf t = Some (Blots.TextRun.TStmt SComment)).
+Proof. exact Blots.proofs.PrattFuelAllShape.text_stmt_of_parsed_shape. Qed.
+Check C01_text_statement_arms_unreachable : forall fuel text s' cf t,
+  Blots.Peg.parse Blots.gen.Grammar.blots_grammar fuel Blots.gen.Grammar.PG_input text = Blots.Peg.Ok s' ->
+  In t (rev (Blots.Peg.out s')) -> Blots.PegToItems.is_rule Blots.gen.Grammar.PG_statement t = true ->
+  exists first, In first (Blots.PegToItems.tkids t) /\
+    (Blots.TextRun.text_stmt_of text cf t
+       = Some (Blots.TextRun.glue_stmt SExpr
+                 (Blots.Pratt.pratt_impl (map (Blots.PegToItems.conv text cf) (Blots.PegToItems.tkids first))))
+     \/ Blots.TextRun.text_stmt_of text cf t
+       = Some (Blots.TextRun.glue_stmt SOut
+                 (Blots.Pratt.pratt_impl (map (Blots.PegToItems.conv text cf) (Blots.PegToItems.tkids first))))
+     \/ Blots.TextRun.text_stmt_of text cf t = Some (Blots.TextRun.TStmt SComment)).
+Print Assumptions C01_text_statement_arms_unreachable.
+
+(* kept, NOT proved (PF1): the remaining explicit Panic arms of the text layer are unreachable on parsed texts.
+   (1) the Panic arms inside Pratt.v (empty token stream; infix / postfix operator or unknown pair in operand
+       position; operand where an operator is expected; rule missing from the table or the closure maps;
+       map_postfix / primary on a pair of the wrong kind) need the operand / operator alternation of the pairs
+       under `expression` (grammar rule: prefix operators, term, postfix operators, repeated with an infix operator between) as a
+       PegShape.kids_spec-style theorem, hereditarily through PegToItems.conv;
+   (2) the PEG engine's `expect` on an empty stack (PEEK / POP; TParsePanic) needs the PUSH-before-PEEK/POP
+       invariant of the one rule that uses the stack (string).
+   Both are counted by the TEXT-EVAL / PARSE-text streams of ./check C01 and ./check C10 (0 on every run). *)
+Definition C01_text_pratt_no_panic_on_parsed_full : Prop := forall text s' t first rest,
+  Blots.Peg.parse Blots.gen.Grammar.blots_grammar (Blots.Peg.peg_fuel text) Blots.gen.Grammar.PG_input text
+    = Blots.Peg.Ok s' ->
+  In t (rev (Blots.Peg.out s')) -> Blots.PegToItems.is_rule Blots.gen.Grammar.PG_statement t = true ->
+  Blots.PegToItems.tkids t = first :: rest ->
+  Blots.PegToItems.trule first = Blots.gen.Grammar.PG_expression
+  \/ Blots.PegToItems.trule first = Blots.gen.Grammar.PG_output_declaration ->
+  Blots.Pratt.pratt_impl
+    (map (Blots.PegToItems.conv text (Blots.TextRun.forest_conv_fuel (rev (Blots.Peg.out s'))))
+         (Blots.PegToItems.tkids first)) <> Outcome.Panic.
+Definition C01_text_peg_no_panic_full : Prop := forall text,
+  Blots.Peg.parse Blots.gen.Grammar.blots_grammar (Blots.Peg.peg_fuel text) Blots.gen.Grammar.PG_input text
+    <> Blots.Peg.Panic.
+
+(* of the arms listed under (1): the ones that depend on the REGENERATED operator table only are excluded for EVERY
+   token stream, by exhaustion over the 34 operator rules (bound = gen/PrecTable.v, re-checked when it changes):
+   `ops.get(rule)` is never None; every rule the table calls prefix / infix has its .map_prefix / .map_infix arm;
+   the postfix rules are exactly the four map_postfix has arms for *)
+Require Blots.proofs.PrattFuelAllArms.
+Theorem C01_pratt_table_total : forall r, Blots.Pratt.ops_get Blots.Pratt.impl_table r <> None.
+Proof. exact Blots.proofs.PrattFuelAllArms.impl_table_total. Qed.
+Check C01_pratt_table_total : forall r, Blots.Pratt.ops_get Blots.Pratt.impl_table r <> None.
+Print Assumptions C01_pratt_table_total.
+Theorem C01_pratt_closure_arms_unreachable :
+  (forall r p x, Blots.Pratt.ops_get Blots.Pratt.impl_table r = Some (Blots.PrattTypes.Prefix, p) ->
+                 Blots.Pratt.map_prefix Blots.gen.PrecTable.prefix_map r x <> Outcome.Panic) /\
+  (forall r a p l x, Blots.Pratt.ops_get Blots.Pratt.impl_table r = Some (Blots.PrattTypes.Infix a, p) ->
+                     Blots.Pratt.map_infix Blots.gen.PrecTable.infix_map l r x <> Outcome.Panic).
+Proof.
+  split; [exact Blots.proofs.PrattFuelAllArms.map_prefix_impl_no_panic
+         |exact Blots.proofs.PrattFuelAllArms.map_infix_impl_no_panic].
+Qed.
+Check C01_pratt_closure_arms_unreachable :
+  (forall r p x, Blots.Pratt.ops_get Blots.Pratt.impl_table r = Some (Blots.PrattTypes.Prefix, p) ->
+                 Blots.Pratt.map_prefix Blots.gen.PrecTable.prefix_map r x <> Outcome.Panic) /\
+  (forall r a p l x, Blots.Pratt.ops_get Blots.Pratt.impl_table r = Some (Blots.PrattTypes.Infix a, p) ->
+                     Blots.Pratt.map_infix Blots.gen.PrecTable.infix_map l r x <> Outcome.Panic).
+Print Assumptions C01_pratt_closure_arms_unreachable.
+Theorem C01_pratt_postfix_rules : forall r p,
+  Blots.Pratt.ops_get Blots.Pratt.impl_table r = Some (Blots.PrattTypes.Postfix, p) ->
+  In r [Blots.PrattTypes.R_factorial; Blots.PrattTypes.R_access; Blots.PrattTypes.R_dot_access;
+        Blots.PrattTypes.R_call_list].
+Proof. exact Blots.proofs.PrattFuelAllArms.impl_postfix_rules. Qed.
+Check C01_pratt_postfix_rules : forall r p,
+  Blots.Pratt.ops_get Blots.Pratt.impl_table r = Some (Blots.PrattTypes.Postfix, p) ->
+  In r [Blots.PrattTypes.R_factorial; Blots.PrattTypes.R_access; Blots.PrattTypes.R_dot_access;
+        Blots.PrattTypes.R_call_list].
+Print Assumptions C01_pratt_postfix_rules.
